@@ -508,14 +508,18 @@ def serveMsg (H : Bytes → UInt64) (W : World) (name : Bytes) (qtype qclass : U
 
 /-- `Cache.serveWire` + `serveCompositeFromWire` for a wire-born request (RD set,
 no ECS), falling back to the decoded body.  A chase that declines, and every
-byte-path decline, re-runs the decoded ladder. -/
-def serveWire (H : Bytes → UInt64) (W : World) (w : Bytes) (qtype qclass : UInt16) (cd : Bool) : Outcome :=
+byte-path decline, re-runs the decoded ladder; so does a verified hit that is due
+for a background refresh (`due`: `serveHitFromWire` leaves the prefetch claim to
+the decoded body). -/
+def serveWire (H : Bytes → UInt64) (W : World) (w : Bytes) (qtype qclass : UInt16) (cd : Bool)
+    (due : Entry → Bool := fun _ => false) : Outcome :=
   let decoded : Outcome :=
     match present w with
     | some name => serveMsg H W name qtype qclass cd none false
     | none => Outcome.miss
   match wireHit H W.st w qtype qclass cd with
   | some e =>
+    if due e then decoded else
     match e.alias with
     | none => Outcome.hit [e]
     | some _ =>
@@ -608,5 +612,91 @@ def resetQuestion (H : Bytes → UInt64) (s : AFStore) (name : Bytes) (qtype qcl
 def purgeCuts (cs : List Cut) (name : Bytes) (qclass : UInt16) : List Cut :=
   let cands := cutSuffixes (canonicalName name)
   cs.filter fun c => !(cands.contains c.name && c.qclass == qclass)
+
+/-- `FailureCache.ResetZone`. -/
+def resetZone (H : Bytes → UInt64) (s : AFStore) (zone : Bytes) (qclass : UInt16) : AFStore :=
+  match loadZone H s.get zone qclass with
+  | some _ => s.filter (·.1 != failureZoneHash H zone qclass)
+  | none => s
+
+/-- `FailureCache.ResetMatching` (a useful answer reached the client): the exact
+state and every ancestor-zone state of the question. -/
+def resetMatching (H : Bytes → UInt64) (s : AFStore) (name : Bytes) (qtype qclass : UInt16) (cd : Bool) (scope : Scope) : AFStore :=
+  let n := canonicalName name
+  (failureZones n.length n).foldl (fun acc z => resetZone H acc z qclass)
+    (resetQuestion H s name qtype qclass cd scope)
+
+/-! ## Admission through the miss path: which audience an answer is stored for
+(`internal/ecs/policy.go`, `Cache.requestScope`, `ResponseWriter.WriteMsg`) -/
+
+/-- the `[ecs]` knobs after `ecs.Build` applied its defaults. -/
+structure Policy where
+  forwardV4 : Nat
+  forwardV6 : Nat
+  minScopeV4 : Nat
+  minScopeV6 : Nat
+deriving Repr
+
+/-- `Policy.Clamp` (edns) followed by `Cache.requestScope`: the client's source
+prefix as forwarded upstream and as the cache probes with it. -/
+def clampSource (p : Policy) (c : Prefix) : Prefix :=
+  c.withBits (min c.bits (if c.v6 then p.forwardV6 else p.forwardV4))
+
+/-- `ecs.ReadResponseScope`: the authority's SCOPE over the address it echoes
+(the forwarded source); SCOPE 0 means "global". -/
+def responseScope (source : Prefix) (scopeBits : Nat) : Scope :=
+  if scopeBits = 0 then none else some (source.withBits scopeBits)
+
+/-- `Policy.ClampScope`: never narrower than SOURCE allows (RFC 7871 §7.1.2),
+never narrower than the operator's per-family floor. -/
+def clampScope (p : Policy) (scope source : Prefix) : Prefix :=
+  let bits := if scope.bits > source.bits then source.bits else scope.bits
+  let floor := if scope.v6 then p.minScopeV6 else p.minScopeV4
+  scope.withBits (if bits > floor then floor else bits)
+
+/-- the scope `WriteMsg` keys and tags a cacheable answer with: `client` is the
+request scope (`none`: ECS-aware caching does not apply), `scopeBits` the SCOPE
+of the response (`none`: no ECS option in the response). -/
+def admitScope (p : Policy) (client : Scope) (scopeBits : Option Nat) : Scope :=
+  match client, scopeBits with
+  | some src, some sb =>
+    match responseScope src sb with
+    | some rs => some (clampScope p rs src)
+    | none => none
+  | _, _ => none
+
+/-- `ResponseWriter.WriteMsg` for a cacheable answer: key from the response's own
+question and CD bit and the clamped scope; the entry carries the same scope. -/
+def admit (H : Bytes → UInt64) (p : Policy) (s : AStore) (id : Nat) (name : Bytes) (qtype qclass : UInt16)
+    (cd : Bool) (client : Scope) (scopeBits : Option Nat) : AStore :=
+  let sc := admitScope p client scopeBits
+  setFromResponse s ((CacheKey.mk name qtype qclass cd sc).hash H) id name qtype qclass cd sc none
+
+/-! ## Background refresh (`prefetch_queue.go`) -/
+
+/-- what identifies a request for the cache: question, CD partition, and whether
+the client sent ECS. -/
+structure Req where
+  name : Bytes
+  qtype : UInt16
+  qclass : UInt16
+  cd : Bool
+  hasECS : Bool
+deriving DecidableEq, Repr
+
+/-- the request `processPrefetch` sends to the cache-less sub-pipeline: a copy of
+the trigger — same question, same header (CD above all), DO forced. -/
+def prefetchRequest (trigger : Req) : Req := trigger
+
+/-- `handleCacheHit` queues a refresh: prefetch enabled, the entry inside its
+window and unclaimed (`aged`), and not scoped (`PrefetchEligible`). -/
+def shouldQueuePrefetch (prefetchOn aged : Bool) (e : Entry) : Bool :=
+  prefetchOn && aged && e.scope.isNone
+
+/-- `processPrefetch`: ask upstream `prefetchRequest trigger`; the answer (id
+`newId`, echoing the asked question) replaces `expected` by pointer CAS. -/
+def processPrefetch (s : AStore) (key : UInt64) (expected : Entry) (trigger : Req) (newId : Nat) : AStore × Bool :=
+  let asked := prefetchRequest trigger
+  replaceIfCurrent s key expected newId asked.name asked.qtype asked.qclass none
 
 end SdnsVerif.Model.CacheKey
